@@ -1,6 +1,7 @@
 package props
 
 import (
+	"io"
 	"context"
 	"errors"
 	"fmt"
@@ -334,6 +335,17 @@ func has(l []int, k int) bool {
 }
 
 var errInjected = errors.New("injected store fault")
+
+// errInjectedEOF is a read failure whose identity is io.EOF, wrapped - what net/http reports when a server
+// hangs up in the middle of a body. A failure all the same, not the end of the log.
+var errInjectedEOF = fmt.Errorf("injected store fault: connection closed: %w", io.EOF)
+
+func (f *fcore) readErr() error {
+	if f.ReadFailsWithEOF {
+		return errInjectedEOF
+	}
+	return errInjected
+}
 var errDeadProcess = errors.New("process incarnation is dead")
 
 type fcore struct {
@@ -358,6 +370,8 @@ type fcore struct {
 	OnOp        func()
 	CrashBefore bool
 	ShortReads  bool
+	// ReadFailsWithEOF: injected read failures wrap io.EOF
+	ReadFailsWithEOF bool
 	// InnerAppendErrs: errors the real store returned for appends that no fault of the plan touched and whose
 	// own context was still live when they returned
 	InnerAppendErrs []string
@@ -456,7 +470,7 @@ func (f *fcore) Read(ctx context.Context, from eventbus.Offset, limit int) ([]*e
 	k := f.next("read")
 	if has(f.plan.FailRead, k) {
 		f.fire("read-fails")
-		return nil, from, errInjected
+		return nil, from, f.readErr()
 	}
 	evs, next, err := f.inner.Read(ctx, from, limit)
 	if err == nil && f.ShortReads && len(evs) > 1 {
@@ -483,7 +497,7 @@ func (f *fcore) ReadStream(ctx context.Context, from eventbus.Offset) iter.Seq2[
 		k := f.next("read")
 		if has(f.plan.FailRead, k) {
 			f.fire("read-fails")
-			yield(nil, errInjected)
+			yield(nil, f.readErr())
 			return
 		}
 		for ev, err := range f.streamer.ReadStream(ctx, from) {
@@ -492,7 +506,7 @@ func (f *fcore) ReadStream(ctx context.Context, from eventbus.Offset) iter.Seq2[
 				f.rows++
 				if has(f.plan.FailStreamRow, r) {
 					f.fire("stream-row-fails")
-					yield(nil, errInjected)
+					yield(nil, f.readErr())
 					return
 				}
 			}
